@@ -882,7 +882,7 @@ func init() {
 	})
 
 	register(&Rule{
-		ID: "C17.R2", Props: []string{"C17", "C04"}, Min: 3,
+		ID: "C17.R2", Props: []string{"C17", "C04", "C08", "C10", "C15"}, Min: 3, // Copy independence is what keeps a Load from writing into its parent (C08), into later renders (C10) and past a file edit (C15)
 		Doc: "push/pop primitives: Push appends exactly one scope; Pop re-slices the list to len-1 (removes exactly one), re-creates a root scope instead of leaving the list empty, and never recycles the root map; Copy builds its root from EnvMap's fresh map, never from a scope map of the original",
 		Run: func(p *Prog, c *Ctx) {
 			push := p.MustFn("(*vuego.Stack).Push")
